@@ -29,8 +29,11 @@ package main
 
 import (
 	"bufio"
+	"bytes"
 	"fmt"
 	"net"
+	"os"
+	"os/exec"
 	"runtime"
 	"strings"
 	"sync"
@@ -241,7 +244,79 @@ func c02tExec(in Fields) Fields {
 		return o
 	}
 	c02tCacheMu.Unlock()
-	return c02tRun(in)
+	return c02tRunSafe(in)
+}
+
+// A transcript holding a line of more than 300 bytes (the "long homogeneous payloads" that the
+// built-in handlers re-send through splitMessage) runs in a CHILD PROCESS ("h C02t -inputs
+// /dev/stdin"): a handler that never returns keeps spinning (and allocating) on its goroutine, which
+// cannot be stopped from outside — in the child it dies with the process, after the marker's PONG has
+// been missed for c02tPongWait ("X no-pong", a failing case with the whole transcript as replay).
+var c02tPongWait = 8 * time.Second
+var c02tCloseWait = 5 * time.Second
+
+func c02tIsChild() bool { return os.Getenv("C02T_CHILD") != "" }
+
+func init() {
+	if c02tIsChild() {
+		c02tPongWait, c02tCloseWait = 4*time.Second, 500*time.Millisecond
+		go func() { // memory cap: see harness/c02.go, child side
+			var m runtime.MemStats
+			for {
+				time.Sleep(100 * time.Millisecond)
+				runtime.ReadMemStats(&m)
+				if m.HeapAlloc > 768<<20 {
+					fmt.Fprintf(os.Stderr, "memory-runaway heap=%dMB\n", m.HeapAlloc>>20)
+					os.Exit(3)
+				}
+			}
+		}()
+	}
+}
+
+func c02tRisky(in Fields) bool {
+	for _, f := range in {
+		if len(f) > 300 {
+			return true
+		}
+	}
+	return false
+}
+
+func c02tRunSafe(in Fields) Fields {
+	if c02tIsChild() || !c02tRisky(in) {
+		return c02tRun(in)
+	}
+	exe, err := os.Executable()
+	if err != nil {
+		exe = os.Args[0]
+	}
+	cmd := exec.Command(exe, "C02t", "-inputs", "/dev/stdin")
+	cmd.Env = append(os.Environ(), "C02T_CHILD=1")
+	cmd.Stdin = strings.NewReader(in.String() + "\n")
+	var out, errb bytes.Buffer
+	cmd.Stdout = &out
+	cmd.Stderr = &errb
+	if err := cmd.Start(); err != nil {
+		return c02tRec("X", F("cannot-start-child", err.Error()))
+	}
+	done := make(chan error, 1)
+	go func() { done <- cmd.Wait() }()
+	select {
+	case err = <-done:
+	case <-time.After(60 * time.Second):
+		cmd.Process.Kill()
+		<-done
+		err = fmt.Errorf("child timed out")
+	}
+	line := strings.TrimSpace(out.String())
+	if k := strings.Index(line, "|"); err == nil && k >= 0 && !strings.Contains(line, "\n") {
+		if obs, perr := ParseFields(line[k+1:]); perr == nil {
+			return obs
+		}
+	}
+	first := strings.SplitN(strings.TrimSpace(errb.String()), "\n", 2)[0]
+	return c02tRec("X", F("child-died", fmt.Sprint(err), first))
 }
 
 func c02tRun(in Fields) Fields {
@@ -312,7 +387,7 @@ func c02tRun(in Fields) Fields {
 		go func() { conn.Close(); close(done) }()
 		select {
 		case <-done:
-		case <-time.After(5 * time.Second):
+		case <-time.After(c02tCloseWait):
 		}
 	}()
 	rd := bufio.NewReaderSize(srv, 1<<16)
@@ -331,7 +406,7 @@ func c02tRun(in Fields) Fields {
 		}()
 		want := fmt.Sprintf("PONG :m%d", k)
 		var lines []string
-		srv.SetReadDeadline(time.Now().Add(8 * time.Second))
+		srv.SetReadDeadline(time.Now().Add(c02tPongWait))
 		for {
 			s, err := rd.ReadString('\n')
 			if err != nil {
@@ -440,6 +515,25 @@ func (g *c02tGener) line(s string) {
 	}
 	s = string(b)
 	g.c.items = append(g.c.items, "L"+s)
+}
+// raw: a line kept byte for byte (only LF is replaced): used for payloads that sit in the TRAILING
+// parameter, where no Unicode-aware stdlib function looks at them (Fields sees the part before " :",
+// ToUpper the verb and the CTCP verb), so the ASCII model instance is exact for every byte value
+func (g *c02tGener) raw(s string) {
+	g.c.items = append(g.c.items, "L"+strings.ReplaceAll(s, "\n", "\r"))
+}
+
+// a long homogeneous payload through a handler that re-sends it (c02.go: c02EchoLine), sized around
+// THIS session's effective split length (the 433 form, payload among the middles, is space-free ASCII)
+func (g *c02tGener) echo() {
+	eff := g.c.splitLen
+	if eff < 13 {
+		eff = 450
+	}
+	g.raw(c02EchoLine(g.r, g.me, eff, true))
+	if g.r.Chance(70) {
+		g.mark()
+	}
 }
 func (g *c02tGener) idx() int    { return len(g.c.items) }
 func (g *c02tGener) tok() string { return fmt.Sprintf("tk%d", g.idx()) }
@@ -827,6 +921,12 @@ func c02tSession(r *Rand, i int) Fields {
 		if r.Chance(3) {
 			g.probes()
 		}
+		if r.Chance(2) {
+			g.echo()
+		}
+	}
+	if r.Chance(50) {
+		g.echo()
 	}
 	// every session: at least one hostile CAP LS and ACK line, then (after everything else) the probes
 	if r.Chance(70) {
@@ -860,7 +960,7 @@ func c02tGen(r *Rand, tier string, emit func(Fields)) {
 		go func() {
 			defer wg.Done()
 			for in := range jobs {
-				o := c02tRun(in)
+				o := c02tRunSafe(in)
 				c02tCacheMu.Lock()
 				c02tCache[in.String()] = o
 				c02tCacheMu.Unlock()
